@@ -36,7 +36,7 @@ ASSUMPTIONS = [
 ]
 TIERS = {
     "quick": {"shards": 16, "cases": 960, "timeout": 300},
-    "thorough": {"shards": 16, "cases": 48000, "timeout": 3000},
+    "thorough": {"shards": 16, "cases": 150000, "timeout": 3000},
 }
 FLOORS = {
     "quick": {"counts": {"writer_stream_comparisons": 15000, "flush_checks": 2000, "teardown_checks": 1500,
